@@ -43,6 +43,8 @@ where
                     to - from,
                 )
             };
+            #[cfg(feature = "verif_hooks")]
+            rawdb::verif::access(|| rawdb::verif::AccessEvent::Ptr { addr: src.as_ptr() as usize, len: (to - from) * size_of::<T>() });
             buf.extend_from_slice(src);
         } else {
             self.fold_source(from, to, len, (), |(), v| buf.push(v));
